@@ -27,9 +27,12 @@ structure Cfg where
   tol : R
   bodies : List (R × List R)
 
+/-- `str.lower()` on ASCII names -/
+def lowerAscii (s : String) : String := String.ofList (s.toList.map Char.toLower)
+
 /-- `KeplerNum(step, bodies, method=method, tol=tol)`: `self.method = method.lower()` -/
 def Cfg.init (step : R) (bodies : List (R × List R)) (method : String) (tol : R) : Cfg :=
-  { method := method.toLower, step := step, tol := tol, bodies := bodies }
+  { method := lowerAscii method, step := step, tol := tol, bodies := bodies }
 
 /-- what user code does with the object between two calls, and the calls themselves -/
 inductive Op where
